@@ -891,4 +891,175 @@ theorem step_noTrap {s : State} (h : Inv s) {op : Op} (hc : Contract s op) : (st
     rw [if_pos ⟨hc.1, by have := hc.2; omega⟩]
     intro h'; cases h'
 
+/-! ### what reads observe: byte `j` of a view -/
+
+/-- byte `j` of view `p` in state `s` (`none`: outside the buffer) -/
+def byteAt (s : State) (p : View) (j : Nat) : Option Byte := (s.bufs[p.buf]?).bind (·[p.off + j]?)
+
+/-- the bytes a view stands for -/
+def bytesOf (s : State) (p : View) : List Byte :=
+  match s.bufs[p.buf]? with
+  | some b => readAt b p.off p.size
+  | none => []
+
+theorem getElem?_bytesOf {s : State} {p : View} {j : Nat} (hj : j < p.size) : (bytesOf s p)[j]? = byteAt s p j := by
+  unfold bytesOf byteAt
+  cases s.bufs[p.buf]? with
+  | none => simp
+  | some b => simp [getElem?_readAt hj]
+
+/-- bytes after overwriting `[pos, pos + data.length)` of buffer `i` -/
+theorem byteAt_setBuf_writeAt {s : State} {i pos : Nat} {b : Buffer} {data : List Byte}
+    (hb : s.bufs[i]? = some b) (hin : pos + data.length ≤ b.length) (q : View) (j : Nat) :
+    byteAt (setBuf s i (writeAt b pos data)) q j =
+      if q.buf = i ∧ pos ≤ q.off + j ∧ q.off + j < pos + data.length then data[q.off + j - pos]?
+      else byteAt s q j := by
+  have hlt : i < s.bufs.length := (List.getElem?_eq_some_iff.mp hb).1
+  unfold byteAt setBuf
+  by_cases hqi : q.buf = i
+  · subst hqi
+    simp only [List.getElem?_set_self hlt, hb, Option.bind_some, true_and]
+    rw [getElem?_writeAt hin]
+  · have hne : i ≠ q.buf := fun h => hqi h.symm
+    simp only [List.getElem?_set_ne hne, hqi, false_and, if_false]
+
+/-- `copyFromHost` that succeeded on an initialised handle: exactly the requested byte range of the
+    handle's buffer is overwritten with the host data; nothing else changes -/
+theorem copyFromHost_spec {s s' : State} (h : Inv s) {v : Nat} {p : View} {data : List UInt8} {cnt off : Int}
+    {o : Option (List Byte)} (hp : view? s v = some p)
+    (hs : step s (.copyFromHost v data cnt off) = (s', .ok o)) :
+    0 ≤ countBytes p cnt ∧ 0 ≤ (p.esz : Int) * off ∧
+    ((p.esz : Int) * off).toNat + (countBytes p cnt).toNat ≤ p.size ∧
+    (countBytes p cnt).toNat ≤ data.length ∧
+    s'.mems = s.mems ∧ s'.vars = s.vars ∧
+    ∀ (q : View) (j : Nat), byteAt s' q j =
+      if q.buf = p.buf ∧ p.off + ((p.esz : Int) * off).toNat ≤ q.off + j ∧
+          q.off + j < p.off + ((p.esz : Int) * off).toNat + (countBytes p cnt).toNat
+      then (data[q.off + j - (p.off + ((p.esz : Int) * off).toNat)]?).map some else byteAt s q j := by
+  simp only [step, doCopyFromHost, hp] at hs
+  by_cases h1 : countBytes p cnt ≥ -1
+  case neg => rw [if_pos h1] at hs; cases hs
+  rw [if_neg (not_not_intro h1)] at hs
+  by_cases h2 : (p.esz : Int) * off ≥ 0
+  case neg => rw [if_pos h2] at hs; cases hs
+  rw [if_neg (not_not_intro h2)] at hs
+  by_cases h3 : udimLe (countBytes p cnt + (p.esz : Int) * off) p.size = true
+  case neg => rw [if_pos h3] at hs; cases hs
+  rw [if_neg (not_not_intro h3)] at hs
+  by_cases h4 : data.length < (countBytes p cnt).toNat
+  · rw [if_pos h4] at hs; cases hs
+  rw [if_neg h4] at hs
+  obtain ⟨b, hb1, hb2⟩ := h.viewOk hp
+  rw [hb1] at hs
+  simp only [Prod.mk.injEq] at hs
+  have hb := countBytes_nonneg h1
+  simp only [udimLe, Bool.and_eq_true, decide_eq_true_eq] at h3
+  have hlen : ((data.take (countBytes p cnt).toNat).map some).length = (countBytes p cnt).toNat := by
+    simp only [List.length_map, List.length_take]; omega
+  refine ⟨hb, h2, by omega, by omega, ?_, ?_, ?_⟩
+  · rw [← hs.1]; rfl
+  · rw [← hs.1]; rfl
+  · intro q j
+    rw [← hs.1, byteAt_setBuf_writeAt hb1 (by rw [hlen]; omega), hlen]
+    split
+    · rename_i hr
+      have : q.off + j - (p.off + ((p.esz : Int) * off).toNat) < (countBytes p cnt).toNat := by omega
+      simp only [List.getElem?_map, List.getElem?_take, this, if_true]
+    · rfl
+
+/-- `copyToHost` that succeeded on an initialised handle returns exactly the requested bytes of the
+    view and changes nothing -/
+theorem copyToHost_spec {s s' : State} (h : Inv s) {v cap : Nat} {p : View} {cnt off : Int}
+    {o : Option (List Byte)} (hp : view? s v = some p)
+    (hs : step s (.copyToHost v cap cnt off) = (s', .ok o)) :
+    s' = s ∧ 0 ≤ countBytes p cnt ∧ 0 ≤ (p.esz : Int) * off ∧
+    ((p.esz : Int) * off).toNat + (countBytes p cnt).toNat ≤ p.size ∧
+    ∃ out, o = some out ∧ out.length = (countBytes p cnt).toNat ∧
+      ∀ k, k < (countBytes p cnt).toNat → out[k]? = byteAt s p (((p.esz : Int) * off).toNat + k) := by
+  simp only [step, doCopyToHost, hp] at hs
+  by_cases h1 : countBytes p cnt ≥ -1
+  case neg => rw [if_pos h1] at hs; cases hs
+  rw [if_neg (not_not_intro h1)] at hs
+  by_cases h2 : (p.esz : Int) * off ≥ 0
+  case neg => rw [if_pos h2] at hs; cases hs
+  rw [if_neg (not_not_intro h2)] at hs
+  by_cases h3 : udimLe (countBytes p cnt + (p.esz : Int) * off) p.size = true
+  case neg => rw [if_pos h3] at hs; cases hs
+  rw [if_neg (not_not_intro h3)] at hs
+  by_cases h4 : cap < (countBytes p cnt).toNat
+  · rw [if_pos h4] at hs; cases hs
+  rw [if_neg h4] at hs
+  obtain ⟨b, hb1, hb2⟩ := h.viewOk hp
+  rw [hb1] at hs
+  simp only [Prod.mk.injEq, Res.ok.injEq] at hs
+  have hb := countBytes_nonneg h1
+  simp only [udimLe, Bool.and_eq_true, decide_eq_true_eq] at h3
+  refine ⟨hs.1.symm, hb, h2, by omega, _, hs.2.symm, readAt_length (by omega), ?_⟩
+  intro k hk
+  rw [getElem?_readAt hk]
+  unfold byteAt
+  rw [hb1]
+  simp only [Option.bind_some]
+  congr 1; omega
+
+/-- a device-to-device copy that passed its guards: the destination range receives the bytes the
+    source range held *before* the copy (overlapping ranges included); nothing else changes -/
+theorem copyBytes_spec {s : State} {dst src : View} (hd : ViewOk s dst) (hsv : ViewOk s src)
+    {bytes dOff sOff : Nat} (h1 : sOff + bytes ≤ src.size) (h2 : dOff + bytes ≤ dst.size) (q : View) (j : Nat) :
+    byteAt (copyBytes s dst src bytes dOff sOff).1 q j =
+      if q.buf = dst.buf ∧ dst.off + dOff ≤ q.off + j ∧ q.off + j < dst.off + dOff + bytes
+      then byteAt s src (sOff + (q.off + j - (dst.off + dOff))) else byteAt s q j := by
+  obtain ⟨db, hd1, hd2⟩ := hd
+  obtain ⟨sb, hs1, hs2⟩ := hsv
+  rw [copyBytes_eq hd1 hs1]
+  have hr : (readAt sb (src.off + sOff) bytes).length = bytes := readAt_length (by omega)
+  simp only []
+  rw [byteAt_setBuf_writeAt hd1 (by rw [hr]; omega), hr]
+  split
+  · rename_i hc
+    have : q.off + j - (dst.off + dOff) < bytes := by omega
+    rw [getElem?_readAt this]
+    unfold byteAt
+    rw [hs1]
+    simp only [Option.bind_some]
+    have hlt : src.off + sOff + (q.off + j - (dst.off + dOff)) < sb.length := by omega
+    congr 1; omega
+  · rfl
+
+/-! ### histories -/
+
+/-- the caller's contract along a history -/
+def ContractAll : State → List Op → Prop
+  | _, [] => True
+  | s, op :: rest => Contract s op ∧ ContractAll (step s op).1 rest
+
+theorem results_noTrap {s : State} (h : Inv s) {ops : List Op} (hc : ContractAll s ops) :
+    Res.trap ∉ results s ops := by
+  induction ops generalizing s with
+  | nil => simp [results]
+  | cons op rest ih =>
+    simp only [results, List.mem_cons, not_or]
+    exact ⟨fun he => step_noTrap h hc.1 he.symm, ih (step_inv h op) hc.2⟩
+
+theorem view?_assign {s : State} {d : Nat} {m : Option Nat} (x : Nat) :
+    view? (setVar s d m) x = if x = d then m.bind (fun k => s.mems[k]?) else view? s x := by
+  unfold view? setVar
+  simp only []
+  split <;> rfl
+
+theorem view?_pushMem_new {s : State} {d : Nat} {v : View} :
+    view? (setVar (pushMem s v) d (some s.mems.length)) d = some v := by
+  rw [view?_assign]
+  simp [pushMem]
+
+theorem view?_pushMem_old {s : State} (h : Inv s) {d x : Nat} {v : View} (hx : x ≠ d) :
+    view? (setVar (pushMem s v) d (some s.mems.length)) x = view? s x := by
+  rw [view?_assign, if_neg hx]
+  unfold view?
+  cases hv : s.vars x with
+  | none => simp [pushMem, hv]
+  | some m =>
+    have := h.vars _ _ hv
+    simp [pushMem, hv, List.getElem?_append_left this]
+
 end Occa.Mem
